@@ -420,6 +420,80 @@ def r4_settings_by_position(rep, src):
         raise AnalysisError('fewer than two arguments read by name in *args wrappers (%d)' % n)
 
 
+def r4b_handover(rep, src):
+    """... and what such a wrapper hands on to the wrapped constructor is what it was given: the wrapper interpreted (sa.heap) on a list of
+    text lines under every way of passing the arguments (all by keyword, all by position, mixed, the lines as `sequence=`), with the
+    wrapped constructor and the armor splitter as observers -- the parser setting and the field filter arrive at both unchanged"""
+    from .. import heap as H
+    mod = src.mod('deb822')
+    base = mod.funcs.get('Deb822.__init__')
+    f = mod.funcs.get('_gpg_multivalued.__init__')
+    if base is None or f is None:
+        raise AnalysisError('deb822: Deb822.__init__ / _gpg_multivalued.__init__ not found')
+    rep.saw_func(f)
+    names = [a.arg for a in base.node.args.args][1:]
+    if names[:5] != ['sequence', 'fields', '_parsed', 'encoding', 'strict']:
+        raise AnalysisError('deb822:Deb822.__init__ has the parameters %s' % names)
+    base_calls = [c for c in ast.walk(f.node) if isinstance(c, ast.Call) and isinstance(c.func, ast.Attribute) and c.func.attr == '__init__']
+    if len(base_calls) != 1:
+        raise AnalysisError('%s: %d calls of a wrapped constructor' % (f.site, len(base_calls)))
+    bname = norm(base_calls[0].func)
+    S, F = ('the strict setting',), ('the field filter',)
+    LINES = ['A: b\n']
+    conventions = [
+        ('lines by position, the rest by keyword', [LINES], {'fields': F, 'strict': S}),
+        ('all five by position', [LINES, F, None, 'utf-8', S], {}),
+        ('lines and filter by position, encoding and setting by keyword', [LINES, F], {'encoding': 'utf-8', 'strict': S}),
+        ('four by position, the setting by keyword', [LINES, F, None, 'utf-8'], {'strict': S}),
+        ('everything by keyword', [], {'sequence': LINES, 'fields': F, 'strict': S}),
+    ]
+    n = 0
+    for label, args, kwargs in conventions:
+        got = {}
+
+        def base_hook(it, a, k):
+            got['base'] = (list(a), dict(k))
+
+        def split_hook(it, a, k):
+            got['split'] = (list(a), dict(k))
+            return (it.h.new_list([]), it.h.new_list([b'A: b']), it.h.new_list([]))
+        heap = H.Heap(mod, hooks={bname: base_hook, '.split_gpg_and_payload': split_hook, '._bytes': lambda it, a, k: b'A: b'})
+        it = H.Interp(heap)
+        me = heap.alloc('_gpg_multivalued', {})
+        conv = lambda v: heap.new_list(list(v)) if isinstance(v, list) else v      # noqa: E731
+        what = 'what the wrapped constructor receives: ' + label
+        try:
+            it.call(H.Closure(f.node, {}, me, f.cls), [conv(a) for a in args], {k: conv(v) for k, v in kwargs.items()})
+        except H.Raised as x:
+            rep.fail('C08.R4', f.site, what, 'raises %s (line %d)' % (x.exc, x.lineno), where=f.where)
+            continue
+        if 'base' not in got:
+            rep.fail('C08.R4', f.site, what, 'the wrapped constructor is not called', where=f.where)
+            continue
+        n += 1
+        a, k = got['base']
+        a = a[1:]          # (self)
+        eff = {p: (a[i] if i < len(a) else k.get(p)) for i, p in enumerate(names[:5])}
+        twice = [p for i, p in enumerate(names[:5]) if i < len(a) and p in k]
+        problems = []
+        if twice:
+            problems.append('`%s` is handed on by position and by keyword (TypeError in the wrapped constructor)' % twice[0])
+        if eff['strict'] != S:
+            problems.append('the parser setting arrives as %r: the wrapped constructor parses with the default setting, a value with a whitespace-only continuation line '
+                            'that the wrapper\'s own pass accepted ends the paragraph there and the fields after it are lost' % (eff['strict'],))
+        if eff['fields'] != F:
+            problems.append('the field filter arrives as %r' % (eff['fields'],))
+        sp = got.get('split')
+        if sp is not None and S not in sp[0] and S not in sp[1].values():
+            problems.append('the armor splitter is called without the parser setting')
+        if problems:
+            rep.fail('C08.R4', f.site, what, '; '.join(problems), where=f.where)
+        else:
+            rep.ok('C08.R4', f.site, what, 'setting and filter arrive unchanged (%d by position, %s by keyword)' % (len(a), sorted(k) or 'none'))
+    if n < 3:
+        raise AnalysisError('%s: fewer than three calling conventions interpreted' % f.site)
+
+
 def check(src, rep, tier):
     rep.explanation = ('C08: the language of values accepted by Deb822.validate_input is built from its raise-guards; the dump '
                        'template is extracted from _dump_format (two forms); the resulting text language is split into reader '
@@ -435,5 +509,6 @@ def check(src, rep, tier):
     rep.guard('C08.R2', r2_same_line_notion, src, M)
     rep.guard('C08.R1', r1_no_injection, src, M)
     rep.guard('C08.R3', r3_check_before_commit, src, M)
-    rep.need('C08.R4', 2)
+    rep.need('C08.R4', 7)
     rep.guard('C08.R4', r4_settings_by_position, src)
+    rep.guard('C08.R4', r4b_handover, src)
